@@ -311,6 +311,29 @@ func main() {
 					c.Failf("polygon-distance", "DistanceFrom(polygon, %v) = %v, exact %v | %s", fpt(q), got, w1, desc())
 					return
 				}
+				// the same rings as a multi-line-string and as a collection: minimum over members, index of a member attaining it
+				mls := orb.MultiLineString{orb.LineString(p2r)}
+				var memberD []float64
+				memberD = append(memberD, w2)
+				for ri, ir := range rings {
+					mls = append(mls, orb.LineString(poly[ri]))
+					memberD = append(memberD, math.Sqrt(f64(best([][]ipt{ir}))))
+				}
+				col := orb.Collection{}
+				for _, l := range mls {
+					col = append(col, l)
+				}
+				for gi, g := range []orb.Geometry{mls, col} {
+					gd, gidx := planar.DistanceFromWithIndex(g, fpt(q))
+					min := math.Inf(1)
+					for _, d := range memberD {
+						min = math.Min(min, d)
+					}
+					if math.Abs(gd-min) > 1e-9*math.Max(scale, min) || gidx < 0 || gidx >= len(memberD) || math.Abs(memberD[gidx]-min) > 1e-9*math.Max(scale, min) {
+						c.Failf("multi-member-distance", "DistanceFromWithIndex(%s, %v) = %v,%d; member distances %v | %s", []string{"multi-line-string", "collection"}[gi], fpt(q), gd, gidx, memberD, desc())
+						return
+					}
+				}
 				got, idx := planar.DistanceFromWithIndex(mp, fpt(q))
 				wm, wi := w1, 0
 				if w2 < w1 {
